@@ -368,7 +368,8 @@ def _get_traffic_light_paris(
             (TrafficLightLabel.YELLOW_LEFT, "yellow_left"),
             (TrafficLightLabel.YELLOW_RIGHT, "yellow_right"),
             (TrafficLightLabel.YELLOW_STRAIGHT_LEFT, "yellow_straight_left"),
-            (TrafficLightLabel.YELLOW_STRAIGHT_LEFT_RIGHT, "yellow_straight_right"),
+            (TrafficLightLabel.YELLOW_STRAIGHT_RIGHT, "yellow_straight_right"),
+            (TrafficLightLabel.YELLOW_STRAIGHT_LEFT_RIGHT, "yellow_straight_left_right"),
             (TrafficLightLabel.RED, "red"),
             (TrafficLightLabel.RED_STRAIGHT, "red_straight"),
             (TrafficLightLabel.RED_LEFT, "red_left"),
